@@ -5,18 +5,27 @@ CHECK = {
   'level_text': 'Exact clauses are decided, not sampled: inverse() is run with the single quotient 1/d kept symbolic, so the adjugate and the determinant '
                 'are observed as polynomials on ALL 3^16 matrices over {-1,0,1} (3x3: all 5^9 over {-2..2}); every entry has degree <= 2 per variable, hence '
                 'agreement on a 3-point grid per variable is agreement as polynomials, and M*adj = det*I / Leibniz are checked for the reference on the same grid. '
+                'What is demanded is the value (q_ij/div = adj_ij/det, cross-multiplied, at every non-singular grid point); the literal shape adjugate * 1/det is only '
+                'what lets the singular points count as observations, any other shape is reported as "not observed" (cap), never as a violation. '
                 'solve() runs over GF(p) on every non-singular system of the small fields (every zero pattern = every pivot/row-exchange pattern) and on forced-pivot '
-                'P*U / P*L*U systems up to 12x12 with three pivot preferences. Floating-point clauses and the rotation conversions are run on complete grids '
-                '(integer matrices, 15-degree Euler grid x 24 conventions, integer quaternions, axis-angle incl. 0/180 degrees) and compared as the statement says '
-                '(residual <= c*eps*kappa; rotations compared as rotations).',
+                'P*U / P*L*U systems up to 12x12 with three pivot preferences; after every call the caller\'s A and b are read back, and solve(A, A) must be I. Exact '
+                'least squares goes through solve(), solve_() with the non-square system, pseudoinverse()*b, with 1 and 3 right-hand sides. Floating-point clauses and '
+                'the rotation conversions are run on complete grids (integer matrices also scaled by 2^+-40 / 2^+-20, rigid transforms translate*rotateE, 15-degree Euler '
+                'grid x 24 conventions, middle angles at (m/8)*2^-e from gimbal lock for every octave down to 2^-52, integer quaternions, axis-angle incl. 0/180 degrees '
+                'and angles 15*2^-j degrees down to j = 40) and compared as the statement says (residual <= c*eps*kappa; rotations compared as rotations; bit-identity '
+                'between API variants is used to skip work only).',
   'level_note': 'Grid argument assumes the computed adjugate/determinant expressions have degree <= 2 in each entry (true for any single-site change of the '
                 'cofactor expressions); the fixed generic points over GF(2^61-1) cover higher degrees as in the property quantifier. Floating-point and rotation '
-                'clauses are bounded-exhaustive over the stated grids only (no small-angle axis-angle cases: conditioning 1/sin(angle/2) is part of the tolerance). '
-                'Trusts g++ long double, libm sinl/cosl, ASan.',
-  'rule': 'c20_matrix: all 3^16 4x4 matrices over {-1,0,1} (symbolic inverse, det, det(A*B_k), float+double inverse residual), all 3x3 over {-1,0,1} and {-2..2}, '
+                'clauses are bounded-exhaustive over the stated grids only. The rotation tolerance grants the extraction formulas their conditioning (1/rho near gimbal '
+                'lock, 1/sin(angle/2) for axis-angle); a converter that is exact to a few eps everywhere would pass as well. solveZero() is exercised only on linear '
+                'residuals (where one Gauss-Newton step is the least-squares solution), not as a nonlinear solver. Trusts g++ long double, libm sinl/cosl, ASan.',
+  'rule': 'c20_matrix: all 3^16 4x4 matrices over {-1,0,1} (symbolic inverse, det, det(A*B_k), float+double inverse residual, also scaled by powers of two), all 3x3 over {-1,0,1} and {-2..2}, '
+          'rigid transforms translate({-2..2}^3)*rotateE(grid) and 2D similarity transforms at three scales, '
           'det(AB)=det(A)det(B) for all 3^18 pairs of 3x3 grid matrices, fixed points over GF(2^61-1); '
-          'c20_solve: every nxn system over GF(p) for the listed (p,n), P*U/P*L*U up to 12x12, exact least squares for all integer mxn grids listed, float/double grids and families; '
-          'c20_rot: Euler grid x 24 conventions x {float,double}, each matrix converted to all 24 conventions, quaternion, axis-angle and back, repeated on rotation().matrix(). '
+          'c20_solve: every nxn system over GF(p) for the listed (p,n) incl. operands read back and solve(A,A), P*U/P*L*U up to 12x12, exact least squares for all integer mxn grids listed '
+          '(solve, solve_, pseudoinverse; 1 and 3 right-hand sides), float/double grids (also scaled), least-squares grids through solve/solve_/pseudoinverse/solveZero, families; '
+          'c20_rot: Euler grid x 24 conventions x {float,double}, each matrix converted to all 24 conventions, quaternion, axis-angle and back, repeated on rotation().matrix(); '
+          'near-degenerate middle angles converted back in every near-degenerate convention; small angles. '
           'distinct_nontrivial = non-singular matrices / full-rank systems / source rotations; evaluations = asl calls compared with the reference',
   'parts': [
     {'bin': 'c20_matrix', 'flavour': 'plain', 'deadline': {'quick': 600, 'thorough': 3000}},
@@ -24,14 +33,24 @@ CHECK = {
     {'bin': 'c20_rot', 'flavour': 'asan', 'deadline': {'quick': 600, 'thorough': 3000}},
   ],
   'bounds': {
-    'quick': '4x4: all 43046721 matrices over {-1,0,1}, det(A*B) with 1 fixed B; 3x3: all 19683 + 1953125; 3^18 3x3 pairs; 4e5 GF(2^61-1) points; '
-             'solve: all systems over GF(2) n<=4, GF(3) n<=3, GF(5) n<=3, GF(7) n=2; P*U/P*L*U all permutations n<=6, structured n<=12; lsq integer grids 2x1,3x1 over {-2..2}, 3x2 over {-1,0,1} and {-2..2}, 4x2, 5x2 over {-1,0,1}; '
-             'float+double: 3x3 over {-2..2}, 4x4 over {0,1}, families n<=12 (all row permutations n<=6); rotations: 15 deg grid (24^3) x 24 conventions (moving-frame sources converted to everything, '
-             'fixed-frame sources bit-identical to them), quaternions {-3..3}^4, 124 axes x 49 angles, each x {float,double}',
-    'thorough': 'as quick plus det(A*B) with 3 fixed B, 4e6 GF points; all 5x5 systems over GF(2); permutations n<=8 (float n<=7); lsq 4x3 over {-1,0,1}, 4x2 over {-2..2}; '
-                'double solve(A, I) for all 4x4 over {-1,0,1}; rotations: 7.5 deg grid (48^3) x 24 conventions, quaternions {-5..5}^4, 97 angles'},
+    'quick': '4x4: all 43046721 matrices over {-1,0,1}, det(A*B) with 1 fixed B; float+double inverse also at scales 2^-40/2^+40 (float 2^-20/2^+20) for all 3^12 affine ones (last row 0 0 0 1) and all 3x3; '
+             '3x3: all 19683 + 1953125; rigid 4x4: translate(all of {-2..2}^3) * rotateE(30 deg grid 12^3, orders XYZ, ZXZ, YZX*) x 3 scales; 2D: translate({-2..2}^2)*rotate(96 angles)*scale(1,3) x 3 scales; '
+             '3^18 3x3 pairs; 4e5 GF(2^61-1) points; '
+             'solve: all systems over GF(2) n<=4, GF(3) n<=3, GF(5) n<=3, GF(7) n=2 (operands read back after every call; solve(A,A) per matrix and pivot preference); P*U/P*L*U all permutations n<=6, structured n<=12; '
+             'lsq integer grids 2x1,3x1 over {-2..2}, 3x2 over {-1,0,1} and {-2..2}, 4x2, 5x2 over {-1,0,1}: solve() under 3 pivot preferences with every listed b and with 3 right-hand sides at once, solve_() and pseudoinverse()*b under the first preference; '
+             'float+double: 3x3 over {-2..2}, 4x4 over {0,1}, families n<=12 (all row permutations n<=6); scaled by 2^-40/2^+40 (float 2^-20/2^+20): 3x3 over {-1,0,1}, 4x4 over {0,1}, all families; '
+             'float+double least squares through solve/solve_/pseudoinverse (2 right-hand sides) and solveZero (linear residual): 2x1, 3x1, 3x2 over {-2..2}, 3x2, 4x2 over {-1,0,1}, square 2x2 over {-2..2}, 3x3 over {-1,0,1}; '
+             'rotations: 15 deg grid (24^3) x 24 conventions (moving-frame sources converted to everything, fixed-frame sources too unless bit-identical to one of them); '
+             'near gimbal lock: 24 conventions x outer angles on the 45 deg grid (8^2) x {+90,-90 | 0,180} x {+,-} x offsets (m/8)*2^-e rad, m = 8..15, e = 5..27 (float 5..16), then 2^-e to 2^-52 (float 2^-24); '
+             'quaternions {-3..3}^4, 124 axes x (49 angles + 15*2^-j deg, j = 1..40 (float 20), both signs), zero axis x 48 angles, each x {float,double}',
+    'thorough': 'as quick plus det(A*B) with 3 fixed B, 4e6 GF points; scaled float+double inverses for all 3^16; rigid 4x4 on the 15 deg grid (24^3), 2D on 360 angles; all 5x5 systems over GF(2); permutations n<=8 (float n<=7); '
+                'lsq 4x3 over {-1,0,1}, 4x2 over {-2..2}, solve_() and pseudoinverse() under all 3 pivot preferences; float lsq grids 5x2, 4x3 over {-1,0,1}, 4x2 over {-2..2}; scaled 3x3 over {-2..2}; '
+                'double solve(A, I) for all 4x4 over {-1,0,1}; rotations: 7.5 deg grid (48^3) x 24 conventions, fixed-frame sources of the 15 deg sub-grid always converted to everything; '
+                'near gimbal lock: outer angles on the 15 deg grid (24^2); quaternions {-5..5}^4, 97 angles'},
   'assumptions': ['g++ -O2; exact side in 64-bit integers / GF(p) with 128-bit products; reference rotations in x87 long double',
                   'residual bound c = 8 (inverse, solve), kappa_inf from the exact adjugate resp. a long-double full-pivoting inverse; only systems with kappa*eps < 1/64 count as well-conditioned',
-                  'rotation tolerance 16 eps (to matrix/quaternion), 64 eps x conditioning (back to angles / axis-angle); rotations compared by max-abs matrix distance, never by angle triples',
+                  'rotation tolerance 16 eps (to matrix/quaternion), 64 eps x conditioning (back to angles / axis-angle: max(1, 1/rho) with rho = |cos(middle)| resp. |sin(middle)| resp. |sin(angle/2)|); rotations compared by max-abs matrix distance, never by angle triples',
+                  'power-of-two scaling of an integer matrix is exact in float/double (no overflow/underflow at 2^+-40 / 2^+-20 for n <= 4), so the scaled systems have the same exact solution up to the scale',
+                  'a zero axis with a non-zero angle is taken to mean "no rotation" (only the rotation, not the norm of the quaternion, is compared)',
                   'asl Matrix3::operator* is affine-only by design and is not used; products are formed by the harness'],
  }
